@@ -9,5 +9,5 @@ shutil.copy(src+'/demo_test.go',dst+'/demo_test.go')
 m=json.load(open(src+'/meta.json'))
 m['property']=prop
 m['confirmed']={"how":"tools/confirm_seed.sh in a scratch worktree of /repo HEAD: patch applies and builds, `go test -vet=off -count=1 ./...` passes with it, the demo test fails with it and passes without it",
-  "check":"tools/try_seed.sh (git apply to /repo, ./check %s quick, undo)"%prop,"detected":det,"notes":notes}
+  "check":"tools/try_seed.sh (patch applied to a scratch worktree of /repo HEAD, ./check %s quick with VERIF_REPO pointing at it)"%prop,"detected":det,"notes":notes}
 json.dump(m,open(dst+'/meta.json','w'),indent=1)
